@@ -101,9 +101,15 @@ def run(ctx):
     # the production regime of the call site: C(n,3) far above the budget (sub-sampled triples must still be distinct)
     for n, budget in [(45, 5000), (60, 5000), (30, 800)] + ([] if ctx.quick else [(80, 5000), (120, 3000), (200, 5000)]):
         traces.append(_observe_dbal(n, budget, rnd.randrange(1 << 30)))
+    # the same call site with debug logging on (--verbose)
+    from harness.util import verbose_logging
+    with verbose_logging():
+        for n, budget in [(3, 5000), (10, 5000), (12, 100)]:
+            traces.append(_observe_dbal(n, budget, rnd.randrange(1 << 30)))
     # one call on arrays of production size (a dozen 96-well plates): whatever the implementation does to bound its temporaries, the
     # triples of the call are still distinct and complete
     traces.append(_observe_dbal(30, 5000, rnd.randrange(1 << 30), P=12, E=96))
+    traces.append(_observe_dbal(30, 5000, rnd.randrange(1 << 30), P=12, E=384))
     if not ctx.quick:
         traces.append(_observe_dbal(40, 5000, rnd.randrange(1 << 30), P=24, E=96))
         traces.append(_observe_dbal(25, 2300, rnd.randrange(1 << 30), P=6, E=384))
